@@ -16,6 +16,9 @@ mod replay_reader;
 mod serde_leg;
 mod writer;
 
+/// which build of quick-xml this binary is linked against (recorded in replay files)
+pub const FLAVOUR: &str = if cfg!(feature = "enc") { "enc" } else if cfg!(feature = "ol") { "noenc" } else { "nool" };
+
 use std::collections::HashMap;
 
 fn args_map(args: &[String]) -> HashMap<String, String> {
@@ -56,6 +59,7 @@ fn main() {
                 out_dir: get("out-dir", "evidence/replay"),
                 seed,
                 max_all_cuts: get("max-all-cuts", "10").parse().unwrap(),
+                pair_cuts: get("pair-cuts", "0").parse().unwrap(),
                 known_dev: get("known-dev", "C16-1"),
                 stride: get("stride", "1").parse().unwrap(),
             };
